@@ -721,6 +721,38 @@ def helpers(rep, f, c, sink):
         rep.ob('C10-D1.replay.cases', fn, seen == want, 'replay helper cases %r differ from the reference %r' % (sorted(map(str, seen)), sorted(map(str, want))), site, None, c)
 
 
+def replay_retire(rep, f, c, sink, rule='R-PROGRESS.replay-retire'):
+    """C08 clause: a replay helper is entered because bytes acknowledged as read in an earlier call are still owed to the decoder.
+    Whatever the replay's result, a returning path must leave the life cycle in `Converting` -- the withheld bytes are retired --
+    or, in the two-byte helper only, in `ConvertingWithPendingBB` on the path that has established that exactly one of the two
+    bytes (EF) was consumed.  Any other final state re-arms the same replay with no input consumed: the caller's loop spins."""
+    X = 'decode_to_' + sink
+    raw = 'variant::VariantDecoder::%s_raw' % X
+    LC = ('fld', ('deref', SELF), 'life_cycle')
+    n = 0
+    for fn, two in (('Decoder::%s_after_one_potential_bom_byte' % X, False), ('Decoder::%s_after_two_potential_bom_bytes' % X, True)):
+        b = f.body(fn)
+        if b is None:
+            rep.undecidable(rule, fn, 'not found', None, c)
+            continue
+        for p in [p for p in region_paths(b, 0) if feasible(p)]:
+            if p.end[0] != 'return':
+                continue
+            at = sp_str(b.blocks[p.blocks[-1]]['tsp'])
+            stores = [variant_name(e[2]) for e in p.stores() if e[1] == LC]
+            fin = stores[-1] if stores else None
+            ok = fin == 'Converting'
+            if not ok and two and fin == 'ConvertingWithPendingBB':
+                rc = raw_result(p, raw)
+                if len(rc) == 1:
+                    r1 = ('call', raw, rc[0][2], rc[0][3])
+                    ok = any(e[1] == ('bin', 'Eq', tuple_field(r1, 1), ('c', 1, 'usize')) and e[2] is True for e in p.conds())
+            n += 1
+            rep.ob(rule, fn, ok, 'a returning path of the replay helper leaves life_cycle = %s: the withheld byte(s) are not retired, so the next call '
+                   'replays them again without consuming input (no progress)' % fin, at, None, c)
+    return n
+
+
 # ---------------------------------------------------------------- start states and one-shot siblings
 def start_states(rep, f, c):
     fn = 'Decoder::new'
